@@ -42,6 +42,21 @@ theorem build_ok_iff (sl : List (String × Slot)) :
 def SlotOk (choice : Field → Option Arg) (p : Field) : Prop :=
   (∃ v, choice p = some (.value v)) ∨ (choice p = none ∧ hasDefaultAttr p = true)
 
+/-- a slot exists only if the property's default expression evaluated (`Default for builder::T` runs all
+    of them); it then holds the setter's outcome, or that default when the setter was not called -/
+theorem slotOf_ok {x : Ext} {σ : Space} {fuel : Nat} {choice : Field → Option Arg} {p : Field} {s : Slot}
+    (h : slotOf x σ fuel choice p = .ok s) :
+    ∃ s0, initSlot x σ fuel p = .ok s0 ∧
+      ((∃ a, choice p = some a ∧ s = setSlot p.name a) ∨ (choice p = none ∧ s = s0)) := by
+  unfold slotOf at h
+  split at h
+  · simp at h
+  · rename_i s0 hi
+    refine ⟨s0, hi, ?_⟩
+    split at h
+    · rename_i a ha; simp only [Except.ok.injEq] at h; exact Or.inl ⟨a, ha, h.symm⟩
+    · rename_i hn; simp only [Except.ok.injEq] at h; exact Or.inr ⟨hn, h.symm⟩
+
 theorem slots_ok (x : Ext) (σ : Space) (fuel : Nat) (choice : Field → Option Arg) :
     ∀ (ps : List Field) (sl : List (String × Slot)), slots x σ fuel choice ps = .ok sl →
       ((∀ s ∈ sl, ∃ v, s.2 = .ok v) ↔ ∀ p ∈ ps, SlotOk choice p) := by
@@ -60,41 +75,45 @@ theorem slots_ok (x : Ext) (σ : Space) (fuel : Nat) (choice : Field → Option 
       constructor
       · rintro ⟨⟨v, hv⟩, h2⟩
         refine ⟨?_, h2⟩
-        cases hc : choice p with
-        | some a =>
-          rw [hc] at hs; simp only [Except.ok.injEq] at hs
-          cases a with
+        obtain ⟨s0, hi, hcase⟩ := slotOf_ok hs
+        rcases hcase with ⟨a, hc, hsa⟩ | ⟨hc, hs0⟩
+        · cases a with
           | value w => exact Or.inl ⟨w, hc⟩
-          | convFail m => rw [← hs] at hv; simp [setSlot] at hv
-        | none =>
-          rw [hc] at hs; simp only at hs
+          | convFail m => rw [hsa] at hv; simp [setSlot] at hv
+        · subst hs0
           refine Or.inr ⟨hc, ?_⟩
-          unfold initSlot at hs
+          unfold initSlot at hi
           unfold hasDefaultAttr
           cases hst : p.state with
-          | required => rw [hst] at hs; simp only [Except.ok.injEq] at hs; rw [← hs] at hv; simp at hv
+          | required => rw [hst] at hi; simp only [Except.ok.injEq] at hi; rw [← hi] at hv; simp at hv
           | optional => rfl
           | dflt d => rfl
       · rintro ⟨hp, h2⟩
         refine ⟨?_, h2⟩
+        obtain ⟨s0, hi, hcase⟩ := slotOf_ok hs
         rcases hp with ⟨v, hv⟩ | ⟨hn, hd⟩
-        · rw [hv] at hs; simp only [Except.ok.injEq, setSlot] at hs; exact ⟨v, hs.symm⟩
-        · rw [hn] at hs; simp only at hs
-          unfold initSlot at hs
-          unfold hasDefaultAttr at hd
-          cases hst : p.state with
-          | required => rw [hst] at hd; simp at hd
-          | optional =>
-            rw [hst] at hs; simp only at hs
-            split at hs
-            · simp only [Except.ok.injEq] at hs; rename_i v _; exact ⟨v, hs.symm⟩
-            · simp at hs
-          | dflt d =>
-            rw [hst] at hs; simp only at hs
-            split at hs
-            · simp only [Except.ok.injEq] at hs; rename_i v _; exact ⟨v, hs.symm⟩
-            · simp at hs
-            · simp at hs
+        · rcases hcase with ⟨a, hc, hsa⟩ | ⟨hc, _⟩
+          · rw [hv] at hc; simp only [Option.some.injEq] at hc; subst hc
+            exact ⟨v, by rw [hsa]; rfl⟩
+          · rw [hv] at hc; simp at hc
+        · rcases hcase with ⟨a, hc, _⟩ | ⟨_, hs0⟩
+          · rw [hn] at hc; simp at hc
+          · subst hs0
+            unfold initSlot at hi
+            unfold hasDefaultAttr at hd
+            cases hst : p.state with
+            | required => rw [hst] at hd; simp at hd
+            | optional =>
+              rw [hst] at hi; simp only at hi
+              split at hi
+              · simp only [Except.ok.injEq] at hi; rename_i v _; exact ⟨v, hi.symm⟩
+              · simp at hi
+            | dflt d =>
+              rw [hst] at hi; simp only at hi
+              split at hi
+              · simp only [Except.ok.injEq] at hi; rename_i v _; exact ⟨v, hi.symm⟩
+              · simp at hi
+              · simp at hi
     · simp at h
     · simp at h
 
@@ -127,20 +146,18 @@ theorem build_error_names_prop (x : Ext) (σ : Space) (fuel : Nat) (choice : Fie
       | error msg =>
         simp only [Except.error.injEq] at hb; subst hb
         refine ⟨p, by simp, ?_⟩
-        cases hc : choice p with
-        | some a =>
-          rw [hc] at hs; simp only [Except.ok.injEq] at hs
-          cases a with
-          | value w => simp [setSlot] at hs
-          | convFail m' => right; refine ⟨m', rfl, ?_⟩; simp [setSlot] at hs; exact hs.symm
-        | none =>
-          rw [hc] at hs; simp only at hs
+        obtain ⟨s0, hi, hcase⟩ := slotOf_ok hs
+        rcases hcase with ⟨a, hc, hsa⟩ | ⟨hc, hs0⟩
+        · cases a with
+          | value w => simp [setSlot] at hsa
+          | convFail m' => right; refine ⟨m', hc, ?_⟩; simp [setSlot] at hsa; exact hsa
+        · subst hs0
           left
-          unfold initSlot at hs
+          unfold initSlot at hi
           cases hst : p.state with
-          | required => rw [hst] at hs; simp only [Except.ok.injEq, Except.error.injEq] at hs; exact ⟨rfl, rfl, hs.symm⟩
-          | optional => rw [hst] at hs; simp only at hs; split at hs <;> simp at hs
-          | dflt d => rw [hst] at hs; simp only at hs; split at hs <;> simp at hs
+          | required => rw [hst] at hi; simp only [Except.ok.injEq, Except.error.injEq] at hi; exact ⟨hc, rfl, hi.symm⟩
+          | optional => rw [hst] at hi; simp only at hi; split at hi <;> simp at hi
+          | dflt d => rw [hst] at hi; simp only at hi; split at hi <;> simp at hi
       | ok v =>
         simp only at hb
         cases hbr : build rest with
@@ -157,7 +174,7 @@ theorem build_error_names_prop (x : Ext) (σ : Space) (fuel : Nat) (choice : Fie
 def Agree (x : Ext) (σ : Space) (f : Nat) (choice : Field → Option Arg) (L : Field → Option Json)
     (p : Field) : Prop :=
   (∃ j v, L p = some j ∧ de x σ f p.ty j = .ok v ∧ choice p = some (.value v)) ∨
-  (L p = none ∧ choice p = none ∧ (p.state matches .required → optionLike σ f p.ty = false))
+  (L p = none ∧ choice p = none ∧ (p.state matches .required → optionLikeT σ p.ty = false))
 
 /-- the per-member step of `deStruct` on an object, with the member lookup abstracted -/
 def memberDe (x : Ext) (σ : Space) (f : Nat) (L : Field → Option Json) (p : Field) : Except E (String × Val) :=
@@ -165,7 +182,7 @@ def memberDe (x : Ext) (σ : Space) (f : Nat) (L : Field → Option Json) (p : F
   | some v => (match de x σ f p.ty v with | .ok a => .ok (p.name, a) | .error e => .error e)
   | none =>
     match p.state with
-    | .required => if optionLike σ f p.ty then .ok (p.name, Val.none) else .error .reject
+    | .required => if optionLikeT σ p.ty then .ok (p.name, Val.none) else .error .reject
     | .optional => (match dflt x σ f p.ty with | .ok a => .ok (p.name, a) | .error e => .error e)
     | .dflt d => (match de x σ f p.ty d with
         | .ok a => .ok (p.name, a)
@@ -191,14 +208,24 @@ theorem build_eq_members (x : Ext) (σ : Space) (f : Nat) (choice : Field → Op
       have ihr := ih rest hr (fun q hq => hag q (by simp [hq]))
       have hp := hag p (by simp)
       simp only [build, mapM']
+      obtain ⟨s0, hi, hcase⟩ := slotOf_ok hs
       rcases hp with ⟨j, v, hL, hde, hc⟩ | ⟨hL, hc, hreq⟩
-      · rw [hc] at hs; simp only [Except.ok.injEq, setSlot] at hs; subst hs
+      · have hsv : s = .ok v := by
+          rcases hcase with ⟨a, hc', hsa⟩ | ⟨hc', _⟩
+          · rw [hc] at hc'; simp only [Option.some.injEq] at hc'; subst hc'; rw [hsa]; rfl
+          · rw [hc] at hc'; simp at hc'
+        subst hsv
         have hm : memberDe x σ f L p = .ok (p.name, v) := by simp [memberDe, hL, hde]
         rw [hm]; simp only
         cases hb : build rest with
         | ok fs => rw [hb] at ihr; simp only at ihr ⊢; rw [ihr]
         | error m => rw [hb] at ihr; simp only at ihr ⊢; rw [ihr]
-      · rw [hc] at hs; simp only at hs
+      · have hss : s = s0 := by
+          rcases hcase with ⟨a, hc', _⟩ | ⟨_, hs0⟩
+          · rw [hc] at hc'; simp at hc'
+          · exact hs0
+        subst hss
+        have hs := hi
         unfold initSlot at hs
         cases hst : p.state with
         | required =>
